@@ -458,6 +458,7 @@ func finish(c *Ctx, m *runMeta) int {
 	exit := 0
 	distinct := map[string]bool{}
 	var viol []Obligation
+	printedKnown := map[string]bool{}
 	for i := range c.Obls {
 		o := &c.Obls[i]
 		if m.only != "" && o.Key != m.only {
@@ -469,9 +470,17 @@ func finish(c *Ctx, m *runMeta) int {
 			distinct[o.Key] = true
 		case stViolated:
 			distinct[o.Key] = true
-			if k, ok := open[o.Key]; ok {
+			// the same construct seen under another build configuration (key@goos/goarch) is the same finding
+			base := o.Key
+			if i := strings.LastIndex(base, "@"); i > 0 && strings.Contains(base[i:], "/") && !strings.Contains(base[i:], " ") {
+				base = base[:i]
+			}
+			if k, ok := open[base]; ok {
 				nKnown++
-				fmt.Printf("KNOWN-FINDING: property=%s %s [%s at %s]\n", c.Prop, k.WhatFails, o.Key, o.Pos)
+				if !printedKnown[base] {
+					printedKnown[base] = true
+					fmt.Printf("KNOWN-FINDING: property=%s %s [%s at %s]\n", c.Prop, k.WhatFails, base, o.Pos)
+				}
 				o.Status = "known-finding"
 				continue
 			}
